@@ -682,5 +682,541 @@ theorem interpolate_par (h1 : V (F.ofNat 1)) {points values : List α} (hp : All
       exact ⟨rfl, fun v h => by cases h; exact hv⟩
 
 end Par
+
+/-! ## `step` / `runOps` on the element-level and univariate operations -/
+
+section StepU
+variable {α : Type} {env env' : Env α} {V : Nat → α → Prop}
+
+/-- Two environments for the univariate layer: field objects agree index by index on closed sets
+    (`EnvAgree`); a representation valid in any field object is valid in field 0 (`down`: the
+    coefficient setters and `Polynomial([]ff.Element)` copy elements of ANY field object into a
+    polynomial over field 0 — all field objects of one history are the same field); the
+    constructors from external data produce valid representations (`ofNat ofInt parse`); the
+    univariate rings are over field 0 with valid moduli, and `env'` has the same rings over its own
+    field 0. -/
+structure EnvAgreeU (env env' : Env α) (V : Nat → α → Prop) : Prop where
+  base : EnvAgree env env' V
+  down : ∀ i a, V i a → V 0 a
+  ofNat : ∀ i k, V i ((env.fld i).ofNat k)
+  ofInt : ∀ i z, V i ((env.fld i).ofInt z)
+  parse : ∀ i str v, (env.fld i).parse str = .ok v → V i v
+  ringOK : ∀ i, RingOK (env.fld 0) (V 0) (env.uring i)
+  ring' : ∀ i, env'.uring i = withF (env.uring i) (env'.fld 0)
+
+/-- element registers valid in their home field, all coefficients of the univariate registers
+    valid in field 0 (the first two components of `StoreOKAll`) -/
+def StoreOKU (V : Nat → α → Prop) (s : St α) : Prop :=
+  StoreOK V s ∧ ∀ k r, St.getL s.us k = some r → AllV (V 0) r.val
+
+theorem StoreOKU.setU {s : St α} (hs : StoreOKU V s) (d : Nat) (r : UReg α)
+    (hr : AllV (V 0) r.val) : StoreOKU V { s with us := St.setL s.us d r } := by
+  refine ⟨hs.1, fun k r' hk => ?_⟩
+  rw [St.getL_setL] at hk
+  split at hk
+  · cases hk; exact hr
+  · exact hs.2 k r' hk
+
+theorem StoreOKU.setE {s : St α} (hs : StoreOKU V s) (d : Nat) (r : EReg α)
+    (hr : V r.home r.val) : StoreOKU V { s with es := St.setL s.es d r } :=
+  ⟨hs.1.setE d r hr, hs.2⟩
+
+theorem StoreOKU.foldU (home : Nat) : ∀ (kvs : List (Nat × UPoly α)) {s : St α}, StoreOKU V s →
+    (∀ x ∈ kvs, AllV (V 0) x.2) →
+    StoreOKU V { s with us := kvs.foldl (fun us (x : Nat × UPoly α) =>
+      St.setL us x.1 { home := home, val := x.2 }) s.us } := by
+  intro kvs
+  induction kvs with
+  | nil => intro s hs _; exact hs
+  | cons x t ih =>
+    intro s hs hx
+    have := ih (hs.setU x.1 { home := home, val := x.2 } (hx x List.mem_cons_self))
+      (fun y hy => hx y (List.mem_cons_of_mem _ hy))
+    exact this
+
+variable (h : EnvAgreeU env env' V)
+include h
+
+theorem encU_eq (f : UPoly α) : encU env' f = encU env f := by
+  unfold encU F0; rw [(h.base.agree 0).enc]
+
+theorem encU_eq' : encU env' = encU env := funext (encU_eq h)
+
+theorem showU_eq (r : UReg α) : showU env' r = showU env r := by
+  unfold showU; rw [encU_eq h]
+
+theorem uGet_eq (s : St α) (k : Nat) : uGet env' s k = uGet env s k := by
+  unfold uGet F0; rw [zero_congr (h.base.agree 0)]
+
+theorem uGet_eq' (s : St α) : uGet env' s = uGet env s := funext (uGet_eq h s)
+
+theorem eGet_eq' (s : St α) : eGet env' s = eGet env s := funext (eGet_eq h.base s)
+
+theorem uGet_ok {s : St α} (hs : StoreOKU V s) (k : Nat) : AllV (V 0) (uGet env s k).val := by
+  unfold uGet
+  cases hg : St.getL s.us k with
+  | none => exact zero_V (h.base.closed 0)
+  | some r => exact hs.2 k r hg
+
+theorem eVal_ok {s : St α} (hs : StoreOKU V s) (k : Nat) : V 0 (eGet env s k).val :=
+  h.down _ _ (eGet_ok h.base hs.1 k)
+
+/-- write a univariate register: same store, same reply, invariant kept -/
+theorem putU {s : St α} (hs : StoreOKU V s) (dst : Nat) {r r' : UReg α} (e : r' = r)
+    (hv : AllV (V 0) r.val) (tag : String) :
+    (({ s with us := St.setL s.us dst r' }, tag ++ showU env' r') : St α × String)
+      = ({ s with us := St.setL s.us dst r }, tag ++ showU env r) ∧
+    StoreOKU V { s with us := St.setL s.us dst r } := by
+  subst e
+  exact ⟨by rw [showU_eq h], hs.setU dst _ hv⟩
+
+/-- write an element register -/
+theorem putE {s : St α} (hs : StoreOKU V s) (dst : Nat) {r r' : EReg α} (e : r' = r)
+    (hv : V r.home r.val) (tag : String) :
+    (({ s with es := St.setL s.es dst r' }, tag ++ showE env' r') : St α × String)
+      = ({ s with es := St.setL s.es dst r }, tag ++ showE env r) ∧
+    StoreOKU V { s with es := St.setL s.es dst r } := by
+  subst e
+  exact ⟨by rw [showE_eq h.base], hs.setE dst _ hv⟩
+
+theorem uCheck_eq (f : UReg α) (gs : List (UReg α)) : uCheck env' f gs = uCheck env f gs := by
+  unfold uCheck F0; rw [zero_congr (h.base.agree 0)]
+
+theorem uCheck_V {f : UReg α} {gs : List (UReg α)} (hf : AllV (V 0) f.val)
+    (hgs : ∀ g ∈ gs, AllV (V 0) g.val) :
+    ∀ r b, uCheck env f gs = some (r, b) → AllV (V 0) r.val := by
+  intro r b hr
+  unfold uCheck at hr
+  split at hr
+  · cases hr; exact hf
+  · split at hr
+    · next g hg => cases hr; exact hgs g (List.mem_of_find?_eq_some hg)
+    · split at hr
+      · cases hr; exact zero_V (h.base.closed 0)
+      · cases hr
+
+theorem uReduce_par {r : UReg α} (hr : AllV (V 0) r.val) :
+    uReduce env' r = uReduce env r ∧ AllV (V 0) (uReduce env r).val := by
+  unfold uReduce uring
+  rw [h.ring' r.home]
+  obtain ⟨e, hv⟩ := reduceIn_par (h.base.agree 0) (h.base.closed 0) (h.ringOK r.home) hr
+  rw [e]
+  split
+  · exact ⟨rfl, hr⟩
+  · cases hred : reduceIn (env.uring r.home) r.val with
+    | none => exact ⟨rfl, hr⟩
+    | some v => exact ⟨rfl, hv v hred⟩
+
+theorem uInPlace_par (op : String) {a b : UReg α} (ha : AllV (V 0) a.val) (hb : AllV (V 0) b.val) :
+    uInPlace env' op a b = uInPlace env op a b ∧ AllV (V 0) (uInPlace env op a b).1.val ∧
+      AllV (V 0) (uInPlace env op a b).2.1.val := by
+  unfold uInPlace
+  rw [uCheck_eq h]
+  have hck := uCheck_V h ha (gs := [b]) (fun g hg => by rw [List.mem_singleton] at hg; exact hg ▸ hb)
+  cases hc : uCheck env a [b] with
+  | some rb =>
+    obtain ⟨r, bb⟩ := rb
+    cases bb
+    · exact ⟨rfl, ha, hck r false hc⟩
+    · exact ⟨rfl, hck r true hc, hck r true hc⟩
+  | none =>
+    simp only [F0]
+    split
+    · obtain ⟨e, hv⟩ := add_par (h.base.agree 0) (h.base.closed 0) ha hb
+      rw [e]; exact ⟨rfl, hv, hv⟩
+    · obtain ⟨e, hv⟩ := sub_par (h.base.agree 0) (h.base.closed 0) ha hb
+      rw [e]; exact ⟨rfl, hv, hv⟩
+
+theorem uTimes_par {a b : UReg α} (ha : AllV (V 0) a.val) (hb : AllV (V 0) b.val) :
+    uTimes env' a b = uTimes env a b ∧ AllV (V 0) (uTimes env a b).val := by
+  unfold uTimes
+  rw [uCheck_eq h]
+  have hck := uCheck_V h ha (gs := [b]) (fun g hg => by rw [List.mem_singleton] at hg; exact hg ▸ hb)
+  cases hc : uCheck env a [b] with
+  | some rb => obtain ⟨r, bb⟩ := rb; exact ⟨rfl, hck r bb hc⟩
+  | none =>
+    simp only [F0]
+    obtain ⟨e, hv⟩ := mulNoReduce_par (h.base.agree 0) (h.base.closed 0) ha hb
+    rw [e]
+    exact uReduce_par h (r := { a with val := mulNoReduce (env.fld 0) a.val b.val }) hv
+
+theorem scalarEffect_eq (e : EReg α) : scalarEffect env' e = scalarEffect env e := by
+  unfold scalarEffect fld; rw [(h.base.agree e.home).isZero]
+
+theorem uBinRes_par {s : St α} (hs : StoreOKU V s) (op : String) (a b : Nat) :
+    uBinRes env' s op a b = uBinRes env s op a b ∧ AllV (V 0) (uBinRes env s op a b).val := by
+  unfold uBinRes
+  rw [uGet_eq h, uGet_eq h]
+  split
+  · exact uTimes_par h (uGet_ok h hs a) (uGet_ok h hs b)
+  · obtain ⟨e, -, hv⟩ := uInPlace_par h op (uGet_ok h hs a) (uGet_ok h hs b)
+    rw [e]; exact ⟨rfl, hv⟩
+
+theorem uInRes_par {s : St α} (hs : StoreOKU V s) (op : String) (a b : Nat) :
+    uInRes env' s op a b = uInRes env s op a b ∧ AllV (V 0) (uInRes env s op a b).1.val := by
+  unfold uInRes
+  rw [uGet_eq h, uGet_eq h]
+  split
+  · obtain ⟨e, hv⟩ := uTimes_par h (uGet_ok h hs a) (uGet_ok h hs b)
+    simp only [e]; exact ⟨trivial, hv⟩
+  · obtain ⟨e, hv, -⟩ := uInPlace_par h op (uGet_ok h hs a) (uGet_ok h hs b)
+    rw [e]; exact ⟨rfl, hv⟩
+
+theorem uUnRes_par {s : St α} (hs : StoreOKU V s) (op : String) (a : Nat) :
+    uUnRes env' s op a = uUnRes env s op a ∧ AllV (V 0) (uUnRes env s op a).val := by
+  unfold uUnRes
+  simp only [uGet_eq h, F0]
+  have ha := uGet_ok h hs a
+  split
+  · exact ⟨rfl, ha⟩
+  · split
+    · obtain ⟨e, hv⟩ := neg_par (h.base.agree 0) (h.base.closed 0) ha
+      rw [e]; exact ⟨rfl, hv⟩
+    · split
+      · obtain ⟨e, hv⟩ := normalize_par (h.base.agree 0) (h.base.closed 0) ha
+        rw [e]; exact ⟨rfl, hv⟩
+      · obtain ⟨e, hv⟩ := lt_par (h.base.agree 0) (h.base.closed 0) ha
+        rw [e]; exact ⟨rfl, hv⟩
+
+theorem uScaleRes_par {s : St α} (hs : StoreOKU V s) (a e : Nat) :
+    uScaleRes env' s a e = uScaleRes env s a e ∧ AllV (V 0) (uScaleRes env s a e).val := by
+  unfold uScaleRes
+  simp only [uGet_eq h, eGet_eq h.base, scalarEffect_eq h, F0]
+  have ha := uGet_ok h hs a
+  have he := eVal_ok h hs e
+  cases hse : scalarEffect env (eGet env s e) with
+  | none => exact ⟨rfl, ha⟩
+  | some b =>
+    cases b
+    · rw [zero_congr (h.base.agree 0)]; exact ⟨rfl, zero_V (h.base.closed 0)⟩
+    · obtain ⟨e1, hv⟩ := scale_par (h.base.agree 0) (h.base.closed 0) ha he
+      rw [e1]; exact ⟨rfl, hv⟩
+
+theorem uPowRes_par {s : St α} (hs : StoreOKU V s) (a n : Nat) :
+    uPowRes env' s a n = uPowRes env s a n ∧ AllV (V 0) (uPowRes env s a n).val := by
+  unfold uPowRes uring
+  simp only [uGet_eq h]
+  have ha := uGet_ok h hs a
+  rw [h.ring']
+  obtain ⟨e, hv⟩ := upow_par (h.base.agree 0) (h.base.closed 0) (h.ringOK (uGet env s a).home) ha n
+  rw [e]
+  split
+  · exact ⟨rfl, ha⟩
+  · cases hp : UPoly.pow (env.uring (uGet env s a).home) (uGet env s a).val n with
+    | none => exact ⟨rfl, ha⟩
+    | some v => exact ⟨rfl, hv v hp⟩
+
+
+omit h in
+/-- the element-level operations, all constructors except the raw decoder `enc` -/
+def elemOpAll : Op → Bool
+  | .eCtor _ _ how _ => how == "zero" || how == "one" || how == "gen" || how == "foreign" ||
+      how == "u" || how == "s" || how == "str"
+  | .eBin .. | .eUn .. | .ePow .. | .eIn .. | .eProd .. | .eSetNeg _ | .eSetU .. | .eEq ..
+  | .eShow _ => true
+  | .tables .. => true
+  | _ => false
+
+omit h in
+/-- the univariate operations, all constructors except the raw decoder `coefs` (and `str`,
+    see `uOpStr`) -/
+def uOp : Op → Bool
+  | .uCtor _ _ how _ => how == "nats" || how == "ints" || how == "zero" || how == "one" ||
+      how == "regs" || how == "ideal"
+  | .uBin .. | .uUn .. | .uScale .. | .uPow .. | .uEval .. | .uCoef .. | .uLc .. | .uIn ..
+  | .uSetNeg _ | .uSetScale .. | .uSetCoef .. | .uSetZero _ | .uEmbed .. | .uQuoRem .. | .uGcd ..
+  | .uInterp .. | .uEq .. | .uObs _ => true
+  | _ => false
+
+/-- the element-level operations that `elemOp` leaves out -/
+theorem step_elemAll_agree (desc : FieldDesc) {s : St α} (hs : StoreOKU V s) (op : Op)
+    (hop : elemOpAll op = true) :
+    step env' desc s op = step env desc s op ∧ StoreOKU V (step env desc s op).1 := by
+  by_cases hel : elemOp op = true
+  · obtain ⟨e, hv⟩ := step_elem_agree h.base desc hs.1 op hel
+    refine ⟨e, hv, fun k r hk => ?_⟩
+    have hfr := step_frame' env desc s op
+    have hw : op.writesU = [] := by
+      cases op <;> first | rfl | (simp only [elemOp, Bool.false_eq_true] at hel)
+    rw [hfr.us k (by rw [hw]; exact List.not_mem_nil)] at hk
+    exact hs.2 k r hk
+  · cases op <;> try (simp only [elemOpAll, Bool.false_eq_true] at hop; done)
+    case eCtor dst f how arg =>
+      simp only [elemOpAll, Bool.or_eq_true, beq_iff_eq] at hop
+      simp only [elemOp, Bool.or_eq_true, beq_iff_eq] at hel
+      rcases hop with ((hop | rfl) | rfl) | rfl
+      · exact absurd hop hel
+      · simp only [step, stepE, String.reduceBEq, Bool.false_eq_true, if_false, if_true, fld]
+        rw [(h.base.agree f).ofNat]
+        exact putE h hs dst rfl (h.ofNat f _) _
+      · simp only [step, stepE, String.reduceBEq, Bool.false_eq_true, if_false, if_true, fld]
+        rw [(h.base.agree f).ofInt]
+        exact putE h hs dst rfl (h.ofInt f _) _
+      · simp only [step, stepE, String.reduceBEq, Bool.false_eq_true, if_false, if_true, fld]
+        rw [(h.base.agree f).parse]
+        cases hp : (env.fld f).parse (unhex arg) with
+        | error k => exact ⟨rfl, hs⟩
+        | ok v => exact putE h hs dst rfl (h.parse f _ v hp) _
+    case eSetU a n =>
+      rw [step_eSetU, step_eSetU]
+      simp only [fld, eGet_eq h.base]
+      rw [(h.base.agree _).ofNat]
+      exact putE h hs a rfl (h.ofNat _ n) _
+    all_goals (simp only [elemOp, not_true_eq_false] at hel)
+
+
+omit h in
+theorem step_uEmbed (env : Env α) (desc : FieldDesc) (s : St α) (a ring : Nat) (reduce : Bool) :
+    step env desc s (.uEmbed a ring reduce)
+      = (if ((uGet env s a).home == 2) != (ring == 2) then (s, "err InputIncompatible")
+         else
+          let r : UReg α := if reduce then uReduce env { (uGet env s a) with home := ring, err :=
+              if (uGet env s a).err.isErr then (uGet env s a).err.wrapInherit else .none }
+            else { (uGet env s a) with home := ring }
+          ({ s with us := St.setL s.us a r }, "ok " ++ showU env r)) := by
+  by_cases hc : (((uGet env s a).home == 2) != (ring == 2)) = true
+  · simp only [step, stepE, stepU, hc, if_true]
+  · simp only [step, stepE, stepU, hc, Bool.false_eq_true, if_false]
+
+/-- one univariate operation: same new store, same reply, invariant kept -/
+theorem step_uOp_agree (desc : FieldDesc) {s : St α} (hs : StoreOKU V s) (op : Op)
+    (hop : uOp op = true) :
+    step env' desc s op = step env desc s op ∧ StoreOKU V (step env desc s op).1 := by
+  have A := h.base.agree 0
+  have C := h.base.closed 0
+  cases op <;> try (simp only [uOp, Bool.false_eq_true] at hop; done)
+  case uBin dst o a b =>
+    obtain ⟨e, hv⟩ := uBinRes_par h hs o a b
+    rw [step_uBin, step_uBin]
+    exact putU h hs dst e hv _
+  case uUn dst o a =>
+    obtain ⟨e, hv⟩ := uUnRes_par h hs o a
+    rw [step_uUn, step_uUn]
+    exact putU h hs dst e hv _
+  case uScale dst a e =>
+    obtain ⟨e1, hv⟩ := uScaleRes_par h hs a e
+    rw [step_uScale, step_uScale]
+    exact putU h hs dst e1 hv _
+  case uSetScale a e =>
+    obtain ⟨e1, hv⟩ := uScaleRes_par h hs a e
+    rw [step_uSetScale, step_uSetScale]
+    exact putU h hs a e1 hv _
+  case uPow dst a n =>
+    obtain ⟨e, hv⟩ := uPowRes_par h hs a n
+    rw [step_uPow, step_uPow]
+    exact putU h hs dst e hv _
+  case uIn o a b =>
+    obtain ⟨e, hv⟩ := uInRes_par h hs o a b
+    rw [step_uIn, step_uIn, e, showU_eq h]
+    exact ⟨rfl, hs.setU _ _ hv⟩
+  case uSetNeg a =>
+    rw [step_uSetNeg, step_uSetNeg]
+    simp only [uGet_eq h, F0]
+    obtain ⟨e, hv⟩ := neg_par A C (uGet_ok h hs a)
+    rw [e]
+    exact putU h hs a rfl hv _
+  case uSetZero a =>
+    rw [step_uSetZero, step_uSetZero]
+    simp only [uGet_eq h, F0]
+    rw [zero_congr A]
+    exact putU h hs a rfl (zero_V C) _
+  case uSetCoef o a d e =>
+    rw [step_uSetCoef, step_uSetCoef]
+    simp only [uGet_eq h, eGet_eq h.base, F0]
+    have ha := uGet_ok h hs a
+    have he := eVal_ok h hs e
+    rw [A.isZero, coef_congr A]
+    obtain ⟨e1, hv1⟩ := setCoef_par A C ha d he
+    obtain ⟨e2, hv2⟩ := incCoef_par A C ha d he
+    obtain ⟨e3, hv3⟩ := decCoef_par A C ha d he
+    rw [e1, e2, e3]
+    refine putU h hs a rfl ?_ _
+    show AllV (V 0) (if _ then _ else _)
+    split
+    · exact ha
+    · split
+      · exact hv1
+      · split
+        · exact hv2
+        · exact hv3
+  case uEval dst a e =>
+    simp only [step, stepE, stepU, uGet_eq h, eGet_eq h.base, F0]
+    have ha := uGet_ok h hs a
+    have he := eVal_ok h hs e
+    obtain ⟨e1, hv1⟩ := eval_par A C ha he
+    obtain ⟨e2, hv2⟩ := eval_par A C ha C.one
+    rw [e1, A.one, e2]
+    refine putE h hs dst rfl ?_ _
+    show V 0 (if _ then _ else _)
+    split
+    · exact hv1
+    · exact hv2
+  case uCoef dst a d =>
+    simp only [step, stepE, stepU, uGet_eq h, F0]
+    rw [coef_congr A]
+    exact putE h hs dst rfl (coef_V C (uGet_ok h hs a) d) _
+  case uLc dst a =>
+    simp only [step, stepE, stepU, uGet_eq h, F0]
+    rw [lc_congr A]
+    exact putE h hs dst rfl (lc_V C (uGet_ok h hs a)) _
+  case uEmbed a ring reduce =>
+    rw [step_uEmbed, step_uEmbed]
+    simp only [uGet_eq h]
+    have ha := uGet_ok h hs a
+    split
+    · exact ⟨rfl, hs⟩
+    · cases reduce
+      · simp only [Bool.false_eq_true, if_false]
+        exact putU h hs a (r := { (uGet env s a) with home := ring }) rfl ha _
+      · obtain ⟨e, hv⟩ := uReduce_par h (r := UReg.mk ring (uGet env s a).val
+          (if (uGet env s a).err.isErr = true then (uGet env s a).err.wrapInherit else Err.none)) ha
+        simp only [if_true]
+        exact putU h hs a e hv _
+  case uEq a b =>
+    simp only [step, stepE, stepU, uGet_eq h, F0]
+    rw [equal_congr A]
+    exact ⟨rfl, hs⟩
+  case uObs a =>
+    simp only [step, stepE, stepU, uGet_eq h, F0, uring]
+    rw [lc_congr A, A.enc, degrees_congr A, nTerms_congr A, isZero_congr A, isOne_congr A,
+      isMonomial_congr A, toStr_congr A, h.ring']
+    exact ⟨rfl, hs⟩
+  case uInterp dst ring pts vals =>
+    simp only [step, stepE, stepU, eGet_eq' h, F0]
+    have hp : AllV (V 0) (pts.map fun k => (eGet env s k).val) := by
+      intro c hc; obtain ⟨k, _, rfl⟩ := List.mem_map.1 hc; exact eVal_ok h hs k
+    have hvs : AllV (V 0) (vals.map fun k => (eGet env s k).val) := by
+      intro c hc; obtain ⟨k, _, rfl⟩ := List.mem_map.1 hc; exact eVal_ok h hs k
+    obtain ⟨e, hv⟩ := interpolate_par A C (h.ofNat 0 1) hp hvs
+    rw [e]
+    cases hi : interpolate (env.fld 0) (pts.map fun k => (eGet env s k).val)
+        (vals.map fun k => (eGet env s k).val) with
+    | error k => exact ⟨rfl, hs⟩
+    | ok v => exact putU h hs dst rfl (hv v hi) _
+  case uGcd dst gs =>
+    simp only [step, stepE, stepU, stepB, stepT, uGet_eq' h, F0, uCheck_eq h]
+    cases hgs : gs.map (uGet env s) with
+    | nil => exact ⟨rfl, hs⟩
+    | cons f rest =>
+      have hall : ∀ g ∈ gs.map (uGet env s), AllV (V 0) g.val := by
+        intro g hg; obtain ⟨k, _, rfl⟩ := List.mem_map.1 hg; exact uGet_ok h hs k
+      rw [hgs] at hall
+      have hf := hall f List.mem_cons_self
+      have hrest : AllVV (V 0) (rest.map (·.val)) := by
+        intro g hg; obtain ⟨r, hr, rfl⟩ := List.mem_map.1 hg
+        exact hall r (List.mem_cons_of_mem _ hr)
+      simp only []
+      split_ifs with c1 c2
+      · exact ⟨rfl, hs⟩
+      · exact putU h hs dst rfl hf _
+      · cases hc : uCheck env f rest with
+        | some rb => exact ⟨rfl, hs⟩
+        | none =>
+          obtain ⟨e, hv⟩ := gcd_par A C hf hrest
+          rw [e]
+          cases hg : UPoly.gcd (env.fld 0) f.val (rest.map (·.val)) with
+          | none => exact ⟨rfl, hs⟩
+          | some g => exact putU h hs dst (r := { home := f.home, val := g }) rfl (hv g hg) _
+  case uQuoRem dsts a gs =>
+    simp only [step, stepE, stepU, uGet_eq' h, uGet_eq h, F0, uCheck_eq h, encU_eq' h]
+    have ha := uGet_ok h hs a
+    have hgs : AllVV (V 0) ((gs.map (uGet env s)).map (·.val)) := by
+      intro g hg
+      obtain ⟨r, hr, rfl⟩ := List.mem_map.1 hg
+      obtain ⟨k, _, rfl⟩ := List.mem_map.1 hr
+      exact uGet_ok h hs k
+    cases hc : uCheck env (uGet env s a) (gs.map (uGet env s)) with
+    | some rb => exact ⟨rfl, hs⟩
+    | none =>
+      obtain ⟨e, hv⟩ := quoRem_par A C (quoRemFuel (uGet env s a).val) ha hgs
+      simp only [e]
+      cases hq : quoRem (env.fld 0) (quoRemFuel (uGet env s a).val) (uGet env s a).val
+          ((gs.map (uGet env s)).map (·.val)) with
+      | error k => exact ⟨rfl, hs⟩
+      | ok o =>
+        cases o with
+        | none => exact ⟨rfl, hs⟩
+        | some qr =>
+          obtain ⟨qs, r⟩ := qr
+          obtain ⟨hq1, hq2⟩ := hv qs r hq
+          refine ⟨rfl, ?_⟩
+          refine StoreOKU.foldU (uGet env s a).home (dsts.zip (qs ++ [r])) hs ?_
+          intro x hx
+          have := (List.of_mem_zip hx).2
+          rcases List.mem_append.1 this with h1 | h1
+          · exact hq1 _ h1
+          · rw [List.mem_singleton] at h1; rw [h1]; exact hq2
+  case uCtor dst ring how arg =>
+    simp only [uOp, Bool.or_eq_true, beq_iff_eq] at hop
+    have hR := h.ringOK ring
+    have fin : ∀ (o o' : Option (UPoly α)), o' = o → OptV (V 0) o →
+        ((({ s with us := St.setL s.us dst (match o' with
+            | some v => ({ home := ring, val := v } : UReg α)
+            | none => { home := ring, val := UPoly.zero (env'.fld 0), err := .kind .internal }) },
+          "ok " ++ showU env' (match o' with
+            | some v => ({ home := ring, val := v } : UReg α)
+            | none => { home := ring, val := UPoly.zero (env'.fld 0), err := .kind .internal })) :
+            St α × String)
+        = ({ s with us := St.setL s.us dst (match o with
+            | some v => ({ home := ring, val := v } : UReg α)
+            | none => { home := ring, val := UPoly.zero (env.fld 0), err := .kind .internal }) },
+          "ok " ++ showU env (match o with
+            | some v => ({ home := ring, val := v } : UReg α)
+            | none => { home := ring, val := UPoly.zero (env.fld 0), err := .kind .internal }))) ∧
+        StoreOKU V { s with us := St.setL s.us dst (match o with
+            | some v => ({ home := ring, val := v } : UReg α)
+            | none => { home := ring, val := UPoly.zero (env.fld 0), err := .kind .internal }) } := by
+      intro o o' e ho
+      subst e
+      cases o' with
+      | none =>
+        simp only [zero_congr A]
+        exact putU h hs dst rfl (zero_V C) _
+      | some v => exact putU h hs dst rfl (ho v rfl) _
+    have hF' : (uring env' ring).F = env'.fld 0 := by
+      unfold uring; rw [h.ring']; rfl
+    have hF : (uring env ring).F = env.fld 0 := hR.hF
+    have hu' : uring env' ring = withF (uring env ring) (env'.fld 0) := h.ring' ring
+    rcases hop with ((((rfl | rfl) | rfl) | rfl) | rfl) | rfl
+    · simp only [step, stepE, stepU, String.reduceBEq, Bool.false_eq_true, if_false, if_true, hF', hF]
+      rw [hu']
+      obtain ⟨e, hv⟩ := ofNats_par A C hR (h.ofNat 0) (parseNatList arg)
+      exact fin _ _ e hv
+    · simp only [step, stepE, stepU, String.reduceBEq, Bool.false_eq_true, if_false, if_true, hF', hF]
+      rw [hu']
+      obtain ⟨e, hv⟩ := ofInts_par A C hR (h.ofInt 0) (parseIntList arg)
+      exact fin _ _ e hv
+    · simp only [step, stepE, stepU, String.reduceBEq, Bool.false_eq_true, if_false, if_true, hF', hF]
+      exact fin _ _ (congrArg some (zero_congr A)) (fun v hv => by cases hv; exact zero_V C)
+    · simp only [step, stepE, stepU, String.reduceBEq, Bool.false_eq_true, if_false, if_true, hF', hF]
+      exact fin _ _ (congrArg some (one_congr A)) (fun v hv => by cases hv; exact one_V C)
+    · simp only [step, stepE, stepU, String.reduceBEq, Bool.false_eq_true, if_false, if_true, hF', hF,
+        eGet_eq' h]
+      rw [hu']
+      refine fin _ _ (ofCoefs_par A C hR ?_).1 (ofCoefs_par A C hR ?_).2 <;>
+      · intro c hc; obtain ⟨t, _, rfl⟩ := List.mem_map.1 hc; exact eVal_ok h hs _
+    · simp only [step, stepE, stepU, String.reduceBEq, Bool.false_eq_true, if_false, if_true, hF', hF,
+        uGet_eq' h]
+      generalize (if arg == "-" then [] else arg.splitOn ",") = ts
+      have hgens : AllVV (V 0) ((ts.map fun t =>
+          uGet env s ((t.drop 1).toString.toNat!)).map (·.val)) := by
+        intro g hg
+        obtain ⟨r, hr, rfl⟩ := List.mem_map.1 hg
+        obtain ⟨k, _, rfl⟩ := List.mem_map.1 hr
+        exact uGet_ok h hs _
+      obtain ⟨e, hv⟩ := newIdeal_par A C hgens
+      split_ifs with c1 c2
+      · exact ⟨rfl, hs⟩
+      · exact ⟨rfl, hs⟩
+      · rw [e]
+        cases hn : newIdeal (env.fld 0) _ with
+        | none => exact ⟨rfl, hs⟩
+        | some g =>
+          simp only [isZero_congr A]
+          split_ifs with c3
+          · exact ⟨rfl, hs⟩
+          · exact putU h hs dst (r := { home := ring, val := g }) rfl (hv g hn) _
+
+end StepU
 end Tables
 end Algobra
